@@ -1503,7 +1503,7 @@ sexp sexp_sub (sexp ctx, sexp a, sexp b) {
 #if SEXP_USE_RATIOS
   complex_sub:
 #endif
-    r = sexp_complex_sub(ctx, a, b);
+    r = tmp1 = sexp_complex_sub(ctx, a, b);
     if (negatep) {
       if (sexp_complexp(r)) {
         r = sexp_complex_copy(ctx, r);
